@@ -13,6 +13,7 @@ import (
 	"github.com/deepteams/webp/internal/lossless"
 	"github.com/deepteams/webp/internal/lossy"
 	"github.com/deepteams/webp/sharpyuv"
+	"github.com/deepteams/webp/internal/verifhook"
 )
 
 // argbBuf is a reusable ARGB pixel buffer for lossless encoding.
@@ -666,6 +667,7 @@ func encodeLossless(img image.Image, opts *EncoderOptions) ([]byte, uint32, erro
 	// as non-premultiplied on output.
 	pixelCount := width * height
 	ab := argbPool.Get().(*argbBuf)
+	verifhook.Pool("webp.argbPool", cap(ab.data) > 0)
 	if cap(ab.data) >= pixelCount {
 		ab.data = ab.data[:pixelCount]
 	} else {
@@ -733,6 +735,7 @@ func encodeLosslessToWriter(w io.Writer, img image.Image, opts *EncoderOptions) 
 
 	pixelCount := width * height
 	ab := argbPool.Get().(*argbBuf)
+	verifhook.Pool("webp.argbPool", cap(ab.data) > 0)
 	if cap(ab.data) >= pixelCount {
 		ab.data = ab.data[:pixelCount]
 	} else {
